@@ -24,18 +24,23 @@ type Scenario struct {
 }
 
 type Stats struct {
-	Executions   int64
-	Points       int64
-	MaxPoints    int
-	Outcomes     map[string]int64
-	Bound        int
-	Exhaustive   bool
-	HorizonHits  int64
-	MaxThreads   int
-	SampleTrace  []string
-	States       int64 // distinct global states expanded (state caching only)
-	Pruned       int64 // decision points skipped because their state was already expanded
+	Executions  int64
+	Points      int64
+	MaxPoints   int
+	Outcomes    map[string]int64
+	Bound       int
+	Exhaustive  bool
+	HorizonHits int64
+	MaxThreads  int
+	SampleTrace []string
+	States      int64 // distinct global states expanded (state caching only)
+	Pruned      int64 // decision points skipped because their state was already expanded
+	CacheFull   int64 // states explored without being remembered because the table had reached maxCachedStates
 }
+
+// maxCachedStates bounds the state table of one scenario (about 100 bytes per entry with the map's overhead): 16 worker
+// processes stay well below the machine's memory.
+const maxCachedStates = 6_000_000
 
 func (sc *Scenario) horizon() int {
 	if sc.Horizon > 0 {
@@ -129,10 +134,17 @@ func Explore(run *core.Run, sc *Scenario, bound int) Stats {
 					break // this state and everything below it was (or will be) expanded by its owner
 				}
 				if _, ok := seen[res.Keys[i]]; !ok {
+					if len(seen) >= maxCachedStates {
+						// the table is full: the state is explored without being remembered (sound, only less pruning);
+						// memory stays bounded, the deadline bounds the time
+						st.CacheFull++
+						goto expand
+					}
 					st.States++
 				}
 				seen[res.Keys[i]] = remaining
 			}
+		expand:
 			for alt := 1; alt < p.N; alt++ {
 				c := cost + res.costOf(i, alt)
 				if bound >= 0 && c > bound {
